@@ -1,5 +1,6 @@
 import Nstd.Common.Basic
 import Nstd.Sync.Scenario
+import Nstd.Generated.SyncMonitorOrder
 /-
   Line protocol of the Sync area (same lines as harness/sync.cpp):
     reset
@@ -58,7 +59,7 @@ def mkWorld (prim : String) (init sec nsec quantum spur eintr cfail : Nat) (prog
     if prim == "mtx" then some (.mtx Mutex.init)
     else if prim == "sem" then some (.sem (Sem.init init now eintr))
     else if prim == "sig" then some (.sig (Signal.init (init != 0) now spur))
-    else if prim == "mon" then some (.mon (Monitor.init now spur))
+    else if prim == "mon" then some (.mon (Monitor.init now spur Nstd.Generated.SyncMonitorOrder.setSignalsFirst))   -- the order of set() in the current source
     else if prim == "thr" then some .thr
     else none
   p.map fun p => { prim := p, thr := Thr.init cfail, progs := progs, pos := Array.replicate progs.size 0, quantum := quantum }
